@@ -205,7 +205,12 @@ def density_case(kind, boundary, grid, user_volume=None):
         env.assume(L.gt(dens, 0))
         dom = sh.dom.boundary if boundary else sh.dom
         vol = sh.bd_volume({}, L) if boundary else sh.oset.volume({}, L)
-        if user_volume:
+        if user_volume == "self":
+            sv = env.tensor("sv", (1, 1))
+            vol = SH.elems(env, sv)[0]
+            env.assume(L.gt(vol, 0))
+            dom.set_volume(sv)
+        elif user_volume:
             w = (SH.translate if user_volume == "translate" else SH.rotate)(env, sh)
             sv = env.tensor("sv", (1, 1))
             vol = SH.elems(env, sv)[0]
@@ -266,6 +271,8 @@ def cases(tier):
             cs.append(density_case(kind, False, True))
     for kind in ("Circle", "Interval") + (("Parallelogram", "Triangle") if tier == "thorough" else ()):
         cs.append(density_case(kind, True, False))
+    cs.append(density_case("Parallelogram", False, False, user_volume="self"))
+    cs.append(density_case("Circle", True, False, user_volume="self"))
     for wrap in ("rotate", "translate"):
         cs.append(density_case("Circle", False, False, user_volume=wrap))
         if tier == "thorough":
